@@ -57,6 +57,10 @@ type Decoy struct {
 // .mts/.cts ~ .ts, .cgo ~ .go, .sjava ~ .java): files carrying them are not selected by any filter drawn from Exts.
 var LookalikeExts = []string{".mjs", ".cjs", ".ipy", ".mts", ".cts", ".cgo", ".sjava"}
 
+// CompoundExts are two-part extensions whose last part is a member of Exts (api.d.ts, app.min.js): such a file has the
+// extension .ts as well as .d.ts, so a filter that lists both (or one of them twice) names the file twice.
+var CompoundExts = []string{".d.ts", ".spec.ts", ".min.js", ".spec.js", ".test.py", ".pb.go", ".gen.java"}
+
 type File struct {
 	Rel       string    `json:"rel"`
 	Ext       string    `json:"ext"`
@@ -674,6 +678,16 @@ func Generate(r *run.Rand, nFiles int) *Tree {
 		switch {
 		case i == 0 || r.Chance(3, 5):
 			ext = r.Pick(Exts)
+			if r.Chance(1, 5) {
+				// a two-part extension ending in the chosen one
+				var cs []string
+				for _, c := range CompoundExts {
+					if strings.HasSuffix(c, ext) {
+						cs = append(cs, c)
+					}
+				}
+				ext = r.Pick(cs)
+			}
 		case r.Chance(1, 3):
 			ext = r.Pick(LookalikeExts)
 		default:
@@ -703,13 +717,20 @@ func Generate(r *run.Rand, nFiles int) *Tree {
 	return t
 }
 
-// Selected tells whether a relative path carries one of the extensions (the statement's "selected extension").
-// A file name is <base><ext>; extensions in otherExts are chosen so that no member of Exts is a suffix of them.
+// Selected tells whether a file carries one of the extensions of the filter (the statement's "selected extension"): its
+// name is <base><ext> and ext is, or ends in, a filter entry (both start with a dot: x.d.ts has the extensions .d.ts
+// and .ts, x.mts has neither). Extensions in otherExts / LookalikeExts never end in a member of Exts or CompoundExts.
 func Selected(f *File, exts []string) bool {
+	return FilterHits(f, exts) > 0
+}
+
+// FilterHits counts the filter entries (with repetitions) that name the file.
+func FilterHits(f *File, exts []string) int {
+	n := 0
 	for _, e := range exts {
-		if f.Ext == e {
-			return true
+		if e != "" && strings.HasPrefix(e, ".") && strings.HasSuffix(f.Ext, e) {
+			n++
 		}
 	}
-	return false
+	return n
 }
